@@ -609,7 +609,7 @@ func (s *Sim) yield(site string, ch bool) *Task {
 // again; otherwise it keeps the baton.
 func Resume(t *Task) {
 	s := S
-	if s == nil || t == nil {
+	if s == nil || t == nil || s.inHook > 0 {
 		return
 	}
 	s.lock()
